@@ -15,7 +15,12 @@ TRUSTED = [
     "ConcTower.v: hand-written thread programs of register / add_appointment / get_appointment / block connected / block "
     "disconnected at lock-acquisition granularity (guard lifetimes read off watcher.rs, gatekeeper.rs, responder.rs, carrier.rs, "
     "api/internal.rs), action bodies = Tower.v's definitions; ConcTowerProofs.exec_is_step proves that a program run without "
-    "interference is Tower.v's sequential step",
+    "interference is Tower.v's sequential step; interleaving semantics run_sched (event granularity), run_coarse (one letter per "
+    "lock acquisition, what the controlled scheduler replays), std Mutex poisoning as die/poisoned",
+    "proofs: ConcTowerProofs.v (structural theorem g_thread: a guarantee of the ~20 primitive actions lifts to every action of every "
+    "thread program; instances: SQL-statement sequences / DbInv, lock_protects_data; mutual exclusion; invariance over all schedules), "
+    "ConcBreach.v (Owicki-Gries outline of add_appointment || block connected: accepted_then_watched_or_gone), ConcLin.v (read-only "
+    "threads; witnesses by vm_compute)",
     "the tie of the thread programs to the code: hook H3 (teos/src/verif_sync.rs) in CONTROLLED mode — harness/src/bin/conc parks "
     "every thread in before_acquire and grants one lock request at a time, so a schedule (one thread index per lock "
     "acquisition) is replayed exactly on the real Gatekeeper/Watcher/Responder/Carrier/InternalAPI (harness/src/world.rs, "
@@ -31,6 +36,17 @@ TRUSTED = [
     "std Mutex semantics incl. poisoning, tokio (each request runs on the calling thread through a current-thread runtime), SQLite "
     "statement atomicity (Crash.v): modelled, not verified",
 ]
+
+
+# every refutation theorem of Properties/C10.v names a behaviour of the model; the model is only allowed to keep it
+# while the REAL code shows it (class of the monitor failure observed on the implementation's runs)
+REFUTATIONS = {
+    "C10_single_charge_refuted": "ledger:same-appointment-submitted-concurrently",
+    "C10_register_purge_not_linearizable": "serial:mem.rows,users.rows",
+    "C10_get_purge_aborts": "panic:S_api_expired_unwrap",
+    "C10_add_purge_aborts_and_poisons": "panic:S_gk_charge_user_unwrap",
+    "C10_add_connect_not_linearizable": "serial:height-stamps-only",
+}
 
 
 def shard_run(ctx, tier, tag, extra_env=None):
@@ -148,6 +164,12 @@ def run(ctx):
                 cov["samples"] = [l[:500] for l in ls[:2]] + [l[:500] for l in ls[-1:]]
             except OSError:
                 pass
+        hist = total.get("mon_hist", {}) if total else {}
+        for thm, cls in REFUTATIONS.items():
+            if total and hist.get(cls, 0) == 0:
+                ctx.broken.append({"kind": "correspondence", "what": f"refutation {thm} is not reproduced on the real code any more "
+                                   f"(no run of the implementation shows `{cls}`): the model still has the defect, the code does not"})
+        cov["refutation_witnesses_reproduced_on_the_real_code"] = {thm: hist.get(cls, 0) for thm, cls in REFUTATIONS.items()}
         if corr:
             ctx.broken.append({"kind": "correspondence", "what": "the thread programs of ConcTower.v and the real tower disagree "
                                "(replies / state / lock trace / schedule set) on a controlled schedule",
